@@ -10,7 +10,7 @@ for N in $NAMES; do
   RD=/verif/.work/harvest-$N; rm -rf $RD; mkdir -p $RD
   OUT=$(VERIF_REPLAYS=$RD LINES_MAX=2 tools/seedtest.sh seeded/$N $DET 2>&1 | grep -v conda)
   if echo "$OUT" | grep -q "PATCH FAILED"; then echo "$N: patch no longer applies to the current tree (skipped)"; rm -rf $RD; continue; fi
-  if echo "$OUT" | grep -q "VIOLATION"; then
+  if echo "$OUT" | grep -q "VIOLATION\|exit 1$"; then
     i=0
     for f in $RD/*.json; do
       [ -f "$f" ] || continue
@@ -20,7 +20,7 @@ for N in $NAMES; do
 import json
 o=json.load(open('$f')); json.dump({'from_seeded_change':'$N','label':o['label'],'case':o['case']},open('/verif/corpus/$P/mut-$N-$i.json','w'))"
     done
-    echo "$N: still detected by $(echo "$OUT" | grep -o 'VIOLATION property=C[0-9]*' | sort -u | sed 's/VIOLATION property=//' | tr '\n' ' ') ($i replay case(s) kept)"
+    echo "$N: still detected by $(echo "$OUT" | grep -o -- '-> C[0-9]* seed [0-9]* exit 1' | sed 's/-> //; s/ seed.*//' | sort -u | tr '\n' ' ') ($i replay case(s) kept)"
   else echo "$N: NOT DETECTED ANY MORE (was: $DET)"; echo "$OUT" | tail -3; fi
   rm -rf $RD
 done
